@@ -44,6 +44,10 @@ def hex_quality(points, neighbour=None, which: int = 0) -> float:
             idx.append(found)
         addressing.append(idx)
     grid = HexGrid(np.array(pts, dtype=float), addressing)
+    if isinstance(which, (list, tuple)):
+        # the value reported for the point at this position (the cells around it, averaged)
+        at = min(range(len(pts)), key=lambda i: max(abs(pts[i][k] - which[k]) for k in range(3)))
+        return float(grid.junctions[at].quality)
     return float(grid.cells[which].quality)
 
 
@@ -127,7 +131,8 @@ def run(ctx: Ctx) -> None:
     for name, nb in cat["neighbours"].items():
         base = [cat["hex"][name.split("_")[0]][k] for k in range(8)]
         nbr = [nb[k] for k in range(8)]
-        vals, vals2 = [], []
+        vals, vals2, vals3 = [], [], []
+        shared_pt = sorted(p for p in base if p in nbr)[0]
         # all 24 x 24 numberings of the pair (which sides of the two cells meet decides how the pair is found)
         for perm in cat["hexperms"]:
             for perm2 in cat["hexperms"]:
@@ -141,6 +146,14 @@ def run(ctx: Ctx) -> None:
                     vals.append(code(v))
                 if v2 is not None:
                     vals2.append(code(v2))
+                # ... and so is the value of a point the two share (the mean of the cells around it), read through the junction
+                v3 = q_safe(lambda: hex_quality(a, b, which=shared_pt), f"hex+neighbour:{name}")
+                if v3 is not None:
+                    vals3.append(code(v3))
+                    if v is not None and v2 is not None and abs(v3 - 0.5 * (v + v2)) > 1e-9 * max(1.0, abs(v3)):
+                        ctx.violation(f"quality:junction-not-the-mean:{name}", f"the value of a point shared by two cells is {v3}, the mean of the "
+                                      f"two cells' values is {0.5 * (v + v2)}", {"name": name, "perm": perm, "perm2": perm2})
+        add("equal", f"renumbering:junction-of-pair:{name}", codes=vals3, tol=5)
         add("equal", f"renumbering:hex+neighbour:{name}", codes=vals, tol=5)
         add("equal", f"renumbering:neighbour-of-hex:{name}", codes=vals2, tol=5)
     # the SAME grid object after its points were moved (optimizer, smoother): a rigid motion applied point by point through
